@@ -187,7 +187,14 @@ class Gen:
         vals = [self.pick_val(scope, ind) for _ in fields]
         s = self.fresh("s")
         params = ", ".join(f'"{f}" = {v} : i32' for f, v in zip(fields, vals))
-        self.emit(ind, f'{s} = accfg.setup "{acc}" to ({params}) : !accfg.state<"{acc}">')
+        prev = scope["states"].get(acc)
+        if prev is not None and self.profile == "trace" and rng.random() < 0.35:
+            # partially pre-threaded input: this setup already names the setup that really precedes it in this block
+            self.emit(ind, f'{s} = accfg.setup "{acc}" from {prev} to ({params}) : !accfg.state<"{acc}">')
+            self.features.add("pre-threaded")
+        else:
+            self.emit(ind, f'{s} = accfg.setup "{acc}" to ({params}) : !accfg.state<"{acc}">')
+        scope["states"][acc] = s
         t = self.fresh("t")
         lfs = self.launch_fields[acc]
         if lfs:
@@ -221,6 +228,7 @@ class Gen:
 
     def loop(self, ind, scope, depth):
         rng = self.rng
+        scope["states"].clear()
         li = len(self.loops)
         lb = self.index_source("lb", li, [0, 0, 0, 1, 3])
         step = self.index_source("step", li, [1, 1, 1, 2, 3])
@@ -293,6 +301,7 @@ class Gen:
     def cond(self, ind, scope, depth, in_loop):
         rng = self.rng
         self.ifs += 1
+        scope["states"].clear()
         r = rng.random()
         if in_loop and scope["index"] and r < 0.4:
             iv = rng.choice(scope["index"])
@@ -342,6 +351,7 @@ class Gen:
     def call(self, ind, scope):
         rng = self.rng
         self.calls += 1
+        scope["states"].clear()
         kind = rng.choice(["none", "none", "full", "unannotated", "unannotated"])
         arg = rng.choice(scope["i32"])
         vid = self.new_vid()
